@@ -19,7 +19,7 @@ func init() {
 		Fn: checkC01, Level: "model_checking",
 		Rule: "differential replay of whole histories on the real app built from sources rewritten through the map-order/clock seam (every range over a map and every time.Now in x/, app/, lib/, utils/, types/; site list recomputed from the current tree): histories = shared skeletons (without the two 2 000-block ones) + mode-tie, multi-reward, equal-power-reward and three-way-mode-tie skeletons with <=k deviations (quick: k=0 over all, k=1 over the order-sensitive sub-alphabet around the multi-reward, equal-power-reward and three-way-mode-tie skeletons, first two dynamic occurrences per seam site and skeleton history, the first in deviated histories; thorough: k=1 full alphabet, every occurrence); for each history the reference run (sorted key order) is compared with one re-execution per dynamic map-range occurrence (>=2 keys) x every alternative key order (all permutations up to 4 keys, else reverse+rotations), with an adversarial wall clock, with a different node configuration (AppOptions/viper) and with a plain second run; oracle: identical per-block digests (all store key/values + all events in order) and identical tx accept/reject vectors",
 		Assume:      []string{"map iteration inside cosmos-sdk/cometbft/go-ethereum is not seamed (trusted)", "gas is not part of the digest", "the consensus state machine starts no goroutines (the go statements found by the rewriter are listed in evidence: daemon start-up only)"},
-		QuickBudget: 8 * time.Minute, ThoroughBudget: 30 * time.Minute,
+		QuickBudget: 8 * time.Minute, ThoroughBudget: 15 * time.Minute,
 	})
 }
 
@@ -58,6 +58,13 @@ func c01Skeletons() []Skeleton {
 	sk = append(sk, Skeleton{Name: "three-way-mode-tie", MintOn: true, Cfg: Config{ValStakes: []int64{3000, 3000, 3000}}, Labels: []string{
 		"Tip(modeq,50)", "Submit(RV1,modeq,8)", "Submit(RV2,modeq,9)", "Submit(RV3,modeq,7)", b1, b1, b1,
 		"Tip(modeq,50)", "Submit(RV3,modeq,8)", "Submit(RV1,modeq,9)", "Submit(RV2,modeq,7)", "Submit(R1,modeq,std)", b1, b1, b1,
+	}})
+	// the bridge validator set shifts by exactly the 5% checkpoint threshold, spread over all three validators: whatever
+	// is accumulated over the per-validator changes decides a threshold comparison
+	// (stakes chosen so that the first checkpoint, taken after the set-up, records 5000/3000/2000 = 10 000; a new 12 h stake-change
+	// period, then +300/+150/+50 = exactly 5% in one block)
+	sk = append(sk, Skeleton{Name: "valset-exact-threshold", MintOn: false, Cfg: Config{ValStakes: []int64{4840, 2920, 1970}}, Labels: []string{
+		"Block(12h0m0s)", b1, "Delegate(Payer,V1,300)", "Delegate(Tipper,V2,150)", "Delegate(Payer,V3,50)", b1, b1, b1,
 	}})
 	for _, s := range Skeletons() {
 		if s.Name == "bridge" || s.Name == "deposit-closing" {
@@ -102,6 +109,9 @@ func c01Alphabet(c *Cast) func(w *World) []Event {
 				}
 				return MsgSubmit(c.RV3.Acc, c.ModeQ, U256(8))
 			}),
+			ev1("Delegate(Payer,V1,300)", "delegate/threshold", func(w *World) sdkMsg { return MsgDelegate(c.Payer.Acc, w.Vals[0], 300*TRB) }),
+			ev1("Delegate(Tipper,V2,150)", "delegate/threshold", func(w *World) sdkMsg { return MsgDelegate(c.Tipper.Acc, w.Vals[1], 150*TRB) }),
+			ev1("Delegate(Payer,V3,50)", "delegate/threshold", func(w *World) sdkMsg { return MsgDelegate(c.Payer.Acc, w.Vals[2], 50*TRB) }),
 			ev1("Submit(R1,modeq2,std)", "submit-mode/std", func(w *World) sdkMsg { return MsgSubmit(c.R1.Acc, c.ModeQ2, U256(100)) }),
 		)
 		return evs
